@@ -44,6 +44,7 @@ pub proof fn lemma_boundary_unique(s: Seq<char>, i: int, j: int)
     if i < j { lemma_byte_len_mono(s, i, j); } else if j < i { lemma_byte_len_mono(s, j, i); }
 }
 
+pub open spec fn strip_trailing(s: Seq<char>, c: char) -> Seq<char> decreases s.len() { if s.len() > 0 && s.last() == c { strip_trailing(s.drop_last(), c) } else { s } }
 pub trait StrPat: Sized { spec fn pat(&self) -> Seq<char>; }
 impl<'a> StrPat for &'a Str { open spec fn pat(&self) -> Seq<char> { (**self)@ } }
 impl StrPat for char { open spec fn pat(&self) -> Seq<char> { seq![*self] } }
@@ -59,6 +60,9 @@ impl Str {
     #[verifier::external_body]
     pub fn len(&self) -> (n: usize) ensures n == byte_len(self@) { unimplemented!() }
     // R4: `self.chars().count()`
+    // str::trim_end_matches(c): every trailing repetition of the character is removed
+    #[verifier::external_body]
+    pub fn trim_end_matches(&self, c: char) -> (r: Str) ensures r@ == strip_trailing(self@, c) { unimplemented!() }
     #[verifier::external_body]
     pub fn chars_count(&self) -> (n: usize) ensures n == self@.len() { unimplemented!() }
     // other unit counts of a string (bytes, UTF-16 code units): left unspecified except for bytes
